@@ -154,6 +154,37 @@ def directed(default_params):
                       {"op": "rename.permute", "slot": slot, "route": route,
                        "perms": [[0, 1], [1, 2]]}]
     out.append(("construction-routes", P, steps))
+    # Einstein convention (no explicit targets) with squared objects
+    steps = []
+    sq = [
+        [["pow", ["nst", "w", ["k", "l"]], 2]],
+        [["pow", ["amp", "t1", ["c", "d"], ["k", "l"], 0], 2]],
+        [["pow", ["nst", "w", ["k", "l"]], 2], ["nst", "u", ["i", "a"]]],
+        [["pow", ["ast", "V", ["k", "l"], ["c", "d"], 0], 2], ["amp", "X", ["a"], ["i"], 0]],
+        [["pow", ["nst", "w", ["k3", "c4"]], 3], ["nst", "w", ["k3", "c4"]]],
+    ]
+    for n, atoms in enumerate(sq):
+        tg = ["i", "a"] if any(a[0] != "pow" for a in atoms) else []
+        steps.append({"op": "build", "slot": 0, "targets": tg,
+                      "terms": [{"pref": [1, 1], "atoms": atoms}]})
+        for route in (6, 0):
+            steps += [{"op": "rename.sc", "slot": 0, "route": route},
+                      {"op": "rename.gen", "slot": 0, "route": route},
+                      {"op": "rename.gen", "slot": 0, "route": route}]
+    out.append(("einstein-powers", P, steps))
+    # the same contracted indices with target indices of the same names but other spins
+    steps = []
+    for base_t, contr in ((["i"], ["j:a"]), (["i", "j"], ["k:a"]), (["a", "i"], ["k:a", "c:b"]),
+                          (["i", "j"], ["k:a", "l:b", "c:a"])):
+        for spins in itertools.product("ab", repeat=len(base_t)):
+            tg = [f"{n}:{sp}" for n, sp in zip(base_t, spins)]
+            allidx = tg + contr
+            atoms = [["nst", "w", allidx], ["nst", "u", contr + contr[:1]]]
+            steps.append({"op": "build", "slot": 0, "targets": tg,
+                          "terms": [{"pref": [1, 1], "atoms": atoms}]})
+            steps += [{"op": "rename.sc", "slot": 0}, {"op": "rename.term", "slot": 0,
+                                                        "how": "sc", "pick": 0, "perms": []}]
+    out.append(("spin-target-variants", dict(P, spin_mode=True), steps))
     # D5 expand_itmd with targets equal to the definition's own contracted names
     steps = []
     for pick in range(0, 22):
